@@ -1,0 +1,167 @@
+//go:build verif
+
+package main
+
+// Driver for the correspondence check of property C11 (/verif), clause "... otherwise the
+// first certificate of the set, or no certificate at all when strict matching is on", as it
+// holds per listener: one job is one command line.  The driver parses it with the real
+// config.Load and calls the real makeTLSConfig for every listener in the order main() does
+// (startAdmin for the ui listener first, then the loop of startServers over cfg.Listen),
+// waits until the stores that should have certificates have them, and reports for every
+// listener and every probe name what GetCertificate of the listener's tls.Config returns
+// (the leaf, no certificate, or ErrNoCertsStored) and which leaf a real TLS handshake against
+// that tls.Config is presented.  One command line per process, as main() runs once.
+// Reads VERIF_C11_IN, writes VERIF_C11_OUT; skipped otherwise.
+
+import (
+	"crypto/tls"
+	"encoding/hex"
+	"encoding/json"
+	"errors"
+	"net"
+	"os"
+	"strings"
+	"testing"
+	"time"
+
+	"github.com/fabiolb/fabio/cert"
+	"github.com/fabiolb/fabio/config"
+)
+
+type verifC11In struct {
+	Args   []string // the command line after the program name
+	Probes []string // server names
+	Wait   []bool   // per listener (ui first): its store is expected to receive certificates
+}
+
+type verifC11Ans struct {
+	Kind string // cert | none | nocerts | err
+	DER  string // hex of the leaf GetCertificate returned
+	HS   string // hex of the leaf a real handshake was presented; "" = not made, "-" = it failed
+	Err  string
+}
+
+type verifC11Listener struct {
+	Addr, Proto, CS string // as config.Load understood the listener (for humans)
+	Strict          bool
+	HasTLS          bool
+	Err             string
+	Answers         []verifC11Ans
+}
+
+type verifC11Out struct {
+	LoadErr   string
+	Listeners []verifC11Listener
+}
+
+func verifC11Plain(sn string) bool {
+	return sn != "" && sn == strings.ToLower(sn) && !strings.HasSuffix(sn, ".") && !strings.Contains(sn, "*") && net.ParseIP(sn) == nil
+}
+
+func verifC11Handshake(cfg *tls.Config, sn string) string {
+	cc, sc := net.Pipe()
+	defer cc.Close()
+	defer sc.Close()
+	go func() {
+		srv := tls.Server(sc, cfg)
+		srv.SetDeadline(time.Now().Add(5 * time.Second))
+		srv.Handshake()
+	}()
+	cli := tls.Client(cc, &tls.Config{ServerName: sn, InsecureSkipVerify: true})
+	cli.SetDeadline(time.Now().Add(5 * time.Second))
+	if err := cli.Handshake(); err != nil {
+		return "-"
+	}
+	pcs := cli.ConnectionState().PeerCertificates
+	if len(pcs) == 0 {
+		return "-"
+	}
+	return hex.EncodeToString(pcs[0].Raw)
+}
+
+func TestVerifC11(t *testing.T) {
+	inFile, outFile := os.Getenv("VERIF_C11_IN"), os.Getenv("VERIF_C11_OUT")
+	if inFile == "" || outFile == "" {
+		t.Skip("VERIF_C11_IN / VERIF_C11_OUT not set")
+	}
+	var in verifC11In
+	b, err := os.ReadFile(inFile)
+	if err != nil {
+		t.Fatal(err)
+	}
+	if err := json.Unmarshal(b, &in); err != nil {
+		t.Fatal(err)
+	}
+	var out verifC11Out
+	write := func() {
+		ob, _ := json.Marshal(out)
+		if err := os.WriteFile(outFile, ob, 0o644); err != nil {
+			t.Fatal(err)
+		}
+	}
+	cfg, err := config.Load(append([]string{"fabio"}, in.Args...), nil)
+	if err != nil || cfg == nil {
+		out.LoadErr = "config.Load: " + verifC11Err(err)
+		write()
+		return
+	}
+	listeners := append([]config.Listen{cfg.UI.Listen}, cfg.Listen...)
+	cfgs := make([]*tls.Config, len(listeners))
+	for i, l := range listeners {
+		tlscfg, err := makeTLSConfig(l)
+		cfgs[i] = tlscfg
+		out.Listeners = append(out.Listeners, verifC11Listener{Addr: l.Addr, Proto: l.Proto, CS: l.CertSource.Name,
+			Strict: l.StrictMatch, HasTLS: tlscfg != nil, Err: verifC11Err(err)})
+	}
+	// the sources load in goroutines of their own: wait for the stores that have something to wait for
+	deadline := time.Now().Add(8 * time.Second)
+	for i, c := range cfgs {
+		if c == nil || c.GetCertificate == nil || i >= len(in.Wait) || !in.Wait[i] {
+			continue
+		}
+		for time.Now().Before(deadline) {
+			if _, err := c.GetCertificate(&tls.ClientHelloInfo{ServerName: "ready.invalid"}); !errors.Is(err, cert.ErrNoCertsStored) {
+				break
+			}
+			time.Sleep(20 * time.Millisecond)
+		}
+	}
+	time.Sleep(100 * time.Millisecond)
+	for i, c := range cfgs {
+		if c == nil {
+			continue
+		}
+		for _, sn := range in.Probes {
+			var a verifC11Ans
+			if c.GetCertificate == nil {
+				a = verifC11Ans{Kind: "err", Err: "tls.Config without GetCertificate"}
+			} else {
+				crt, err := c.GetCertificate(&tls.ClientHelloInfo{ServerName: sn})
+				switch {
+				case errors.Is(err, cert.ErrNoCertsStored):
+					a.Kind = "nocerts"
+				case err != nil:
+					a.Kind, a.Err = "err", err.Error()
+				case crt == nil:
+					a.Kind = "none"
+				case len(crt.Certificate) == 0:
+					a.Kind, a.Err = "err", "certificate value without a leaf"
+				default:
+					a.Kind, a.DER = "cert", hex.EncodeToString(crt.Certificate[0])
+				}
+			}
+			if verifC11Plain(sn) {
+				a.HS = verifC11Handshake(c, sn)
+			}
+			out.Listeners[i].Answers = append(out.Listeners[i].Answers, a)
+		}
+	}
+	write()
+}
+
+func verifC11Err(err error) string {
+	if err == nil {
+		return ""
+	}
+	return err.Error()
+}
